@@ -11,8 +11,11 @@ import TacklerModel.Props.E2E
 
 * §1 git storage: `parseAll` with the text parser of a blob is `mapMS (acceptText cfg)` over the blob texts
   (`parseAll_text`), so a git load is `loadFiles` of the selected blobs.
-* §2 … §5 the equity export as text: the characters of `equityText` (`equityText_chars`), one posting line parses
-  back (`parseTxnPosting_eqPosting`), one transaction (`parseTxn_eqTxn`), the whole export (`parseJournal_eqChars`).
+* §2 the equity export as characters (`eqChars`, in the vocabulary of `Model/Print.lean`) and its parse: one posting
+  line (`parseTxnPosting_eqPosting`), one transaction (`parseTxn_eqTxn`), the whole export (`parseJournal_eqChars`).
+* §3 the text `Tackler.equityText` writes is `eqChars` (`equityText_chars`), and exists for printable timestamps
+  (`equityText_some`).
+* §4 the export of well-formed (C06 `WF`) source transactions is well-formed (`export_wf`).
 -/
 namespace Tackler
 namespace E2E
